@@ -353,7 +353,22 @@ def r18_6(ctx):
         rep.check(ok, "R18.6", astq.loc(pr), f"{pr.key}::R18.6::batch={B}",
                   f"parse_return(logqp=True) on ys of shape {(T, B, d + 1)}: {why}",
                   f"log-ratio (len(ts) - 1, {B}), increments of the last channel")
-    ctx.floor("R18.6", 2)
+        # with extra=True the solver state comes back as it is (it is the state of the augmented system: a continued solve
+        # needs its extra channel -- the integrand at the hand-over time)
+        it2 = c17._index_interp(model)
+        ex = (c17.ST.symbolic("exf", (B, d + 1)), c17.ST.symbolic("exz", (B, d + 1)))
+        try:
+            out2 = it2.call_function(pr, [y0, ys, ex, True, True], {})
+            ok2 = isinstance(out2, tuple) and len(out2) == 3 and isinstance(out2[2], tuple) and len(out2[2]) == 2 and \
+                all(isinstance(a, c17.ST) and a.equal(b) for a, b in zip(out2[2], ex))
+            got = [getattr(a, "shape", a) for a in out2[2]] if isinstance(out2, tuple) and len(out2) == 3 and isinstance(out2[2], tuple) else out2
+        except SimRaise as e:
+            ok2, got = False, f"raises {e.exc_name}"
+        rep.check(ok2, "R18.6", astq.loc(pr), f"{pr.key}::R18.6::extra-unchanged::batch={B}",
+                  f"parse_return(logqp=True, extra=True) hands back a solver state of shapes `{got}`, not the state of shapes "
+                  f"{[(B, d + 1)] * 2} it was given: a solve continued from it loses the integrand at the hand-over time",
+                  "extra solver state returned unchanged")
+    ctx.floor("R18.6", 4)
 
 
 def run(ctx):
